@@ -7,7 +7,9 @@ A  TLC on spec/Derive: for every tuple (libver 0-4 x transport x params class x 
    instead of v3, must violate Agreement.  spec/Phantom (checked exhaustively by C14) supplies draws -> address.
 B  TLC prints every tuple with its ordered draw list (Gen_Derive) and every phantom case of the small configurations
    (Gen_Phantom).  The Go driver instantiates every applicable tuple with secrets x subnet configurations x family and
-   compares, field by field, the real station (NewRegistrationC2SWrapper, GetIdentifier, obfs4 keys, DTLS credentials),
+   compares, field by field, the real station (NewRegistrationC2SWrapper per family AND the path real traffic takes: the
+   marshalled dual-stack message through parseRegMessage, registrations visited in ingest order; GetIdentifier, obfs4
+   keys, DTLS credentials),
    the real client code (GenerateClientSharedKeys, SelectPhantom, internal/compatability v0/v1, ClientTransports) and an
    independent execution of the printed draw list.  Pinned inputs are compared with golden/derive.json.
 Equality of cryptographic values is decided by execution on sampled secrets, not by TLC.
@@ -61,6 +63,8 @@ def run(ctx):
     if infra:
         raise vlib.InfraError("driver could not build the spec view: %s" % infra[:3])
     summ = [x for x in rows if x.get("kind") == "summary"][0]
+    if summ.get("msg_views", 0) < 1000:
+        raise vlib.InfraError("too few derivations went through the real message path (parseRegMessage, dual-stack): %s" % summ.get("msg_views"))
     ctx.log("B: %(evaluations)d evaluations over %(tuples)d applicable tuples x %(worlds)d configurations x %(secrets)d secrets; "
             "%(classes)d distinct classes; %(mismatches)d mismatches; skipped %(skipped)s" % summ)
     for m in [x for x in rows if x.get("kind") == "mismatch"]:
